@@ -153,7 +153,7 @@ def run_item(item, tier):
             # what an earlier `cond archive` killed with SIGKILL while tar was running leaves behind: its temporary
             # archive index (here: holding every row of the project) in cond-out
             driver.make_index(os.path.join(root, "cond-out", "version_index_archive.sqlite"), [tuple(r) for r in rows0])
-        arch = os.path.join(root, "A.tar.gz")
+        arch = os.path.join(root, ["A.tar.gz", "results-2024.tar", "snapshot", "b.tgz"][(len(str(task)) + int(latest) + int(stale)) % 4])
         argv = ["archive"] + ([task] if task else []) + (["--latest"] if latest else []) + ["-o", arch]
         res["evals"] += 1
         res["transitions"] += 1
@@ -177,7 +177,7 @@ def run_item(item, tier):
         if r.exit != 0:
             viol("archive:failed", "cond %s exits %r: %s" % (" ".join(argv[:-1]), r.exit, r.err_text[:300]), art)
             continue
-        members = subprocess.run(["tar", "tzf", arch], capture_output=True, text=True).stdout.split()
+        members = subprocess.run(["tar", "tf", arch], capture_output=True, text=True).stdout.split()
         tops = sorted({m.rstrip("/") for m in members if m.rstrip("/") in [vdir(w) for w in want] or m.rstrip("/").endswith(".sqlite")})
         want_tops = sorted([vdir(w) for w in want] + ["version_index_archive.sqlite"])
         stray = [m for m in members if not any(m.rstrip("/") == w or m.startswith(w + "/") for w in want_tops)]
